@@ -34,6 +34,10 @@ type Prog struct {
 	// whose package belongs to the module, sorted by name.
 	ModFuncs []*ssa.Function
 	allFuncs map[*ssa.Function]bool
+
+	known       map[string]bool
+	transparent map[*ssa.Function]bool
+	allMod      []*ssa.Function
 }
 
 // Short converts a full package path of the module to its short name.
